@@ -79,6 +79,8 @@ class _SafeVisitor(ast.NodeVisitor):
             raise ExpressionError("Only simple calls to abs/min/max/round are allowed.")
         for arg in node.args:
             self.visit(arg)
+        for keyword in node.keywords:
+            self.visit(keyword.value)
 
     def generic_visit(self, node: ast.AST) -> Any:  # pragma: no cover - trivial
         if type(node) not in self._ALLOWED_NODES:
